@@ -1,8 +1,8 @@
 (* C12 — per-case judge used by generated case files.
      CSite : one access site of Gen/LockFacts.v (the harness reads the same generated file and sends
              index + file + line + function, so the replay names the site): guarded => VOk, unguarded
-             and a recorded finding's site (Model.LockDiscipline.c12_known_sites) => VKnown k,
-             any other unguarded site => VViolation.
+             => VViolation (the list of tolerated sites Model.LockDiscipline.c12_known_sites is EMPTY
+             since findings C12-1..3 are repaired; the VKnown branch is dead while it stays empty).
      CList : a concurrent history (16 goroutines, barrier rounds, logical clock) of registry mutations
              and listing calls against the real proxy, with the linearization order found by the
              harness; validated with Base/Lin against the atomic-snapshot specification below. *)
@@ -57,7 +57,7 @@ Definition lres_eqb (a b : lres) : bool :=
   | _, _ => false
   end.
 
-(* ---------- recorded racy listings ---------- *)
+(* ---------- racy listings of OPEN findings (none at present: c12_known_sites = []) ---------- *)
 
 (* which map an op touches: 0 players, 1 server's player list, 2 servers *)
 Definition op_map (o : lop) : N :=
